@@ -38,6 +38,10 @@ NAMED_LIST = sorted(refs.NAMED_RGB)
 CSS_SPELLINGS = ("hex6", "hex6u", "hex3", "name", "nameU", "rgb", "rgbtight", "rgbpct", "hsl", "RGB")
 API_ONLY_SPELLINGS = ("barehex", "tuple", "list", "informal")
 ALPHA_SPELLINGS = ("rgba", "hsla", "rgba_tuple")
+# spellings the library accepts whose exact reading is the library's own business (used where the reference is the
+# same call in a pristine process, never where an independent reader has to know the colour)
+EXOTIC_API_SPELLINGS = ("tuple_strs", "tuple_pct", "tuple_float", "tuple01", "paren", "rgb_space", "spaces", "padded", "barehexU",
+                        "hsl_tuple", "rgba_pct", "mixedcase_fn", "list_float", "tuple_bool")
 
 
 def spell(rng, rgb, kinds=CSS_SPELLINGS):
@@ -72,6 +76,35 @@ def spell(rng, rgb, kinds=CSS_SPELLINGS):
         return list(rgb), k
     if k == "informal":
         return "%d, %d, %d" % rgb, k
+    if k == "tuple_strs":
+        return tuple(str(c) for c in rgb), k
+    if k == "tuple_pct":
+        return tuple("%d%%" % round(c * 100 / 255) for c in rgb), k
+    if k == "tuple_float":
+        return tuple(float(c) + rng.choice((0.0, 0.4, 0.5)) for c in rgb), k
+    if k == "list_float":
+        return [float(c) for c in rgb], k
+    if k == "tuple01":
+        return tuple(round(c / 255.0, 3) for c in rgb), k
+    if k == "tuple_bool":
+        return tuple(bool(c > 127) for c in rgb), k
+    if k == "paren":
+        return "(%d, %d, %d)" % rgb, k
+    if k == "rgb_space":
+        return "rgb %d %d %d" % rgb, k
+    if k == "spaces":
+        return "%d %d %d" % rgb, k
+    if k == "padded":
+        return rng.choice(("  %s\t", "\n%s ", " %s")) % _hex6(rgb), k
+    if k == "barehexU":
+        return _hex6(rgb, True)[1:], k
+    if k == "hsl_tuple":
+        h, l, s_ = colorsys.rgb_to_hls(rgb[0] / 255.0, rgb[1] / 255.0, rgb[2] / 255.0)
+        return (round(h * 360.0, 1) or 2.0, round(s_, 3), round(l, 3)), k
+    if k == "rgba_pct":
+        return "rgba(%d%%, %d%%, %d%%, %s)" % (round(rgb[0] * 100 / 255), round(rgb[1] * 100 / 255), round(rgb[2] * 100 / 255), rng.choice(("50%", "100%", "0.5", "1"))), k
+    if k == "mixedcase_fn":
+        return rng.choice(("Rgb(%d, %d, %d)", "rGB( %d , %d , %d )")) % rgb, k
     return _hex6(rgb), "hex6"
 
 
